@@ -103,6 +103,23 @@ fn reader_part(stream: &[u8], faults: &Faults, poll: Poll, obs: &mut Obs) -> Res
     if t.boundary != stream.len() {
         return Err(fail("miscounted-bytes-reader", &who, stream, format!("after the end of input only {} of {} bytes are accounted for", t.boundary, stream.len()), &evs));
     }
+    // the same script through one of the other reader front-ends (non-blocking API over io::Read, the
+    // embedded-hal source through the non-blocking and through the blocking API): every count attached to
+    // an error must again extend the tiling exactly. A serial source has no end of input, so there the
+    // bytes still pending when the script runs out stay unreported (not an error).
+    let api = [1u8, 2, 4][(stream.len() + faults.len()) % 3];
+    let fe = crate::props::c11::Fe { api, poll_next: poll == Poll::Next, cap: None };
+    let who2 = crate::props::c11::fe_name(fe);
+    let script2 = build_script(stream, faults);
+    let evs2 = crate::props::c11::run_cfg(fe, &script2).map_err(|m| Fail::new("reader-step-cap", format!("{who2}: {m}\nstream = {}", hex_short(stream, 120))))?;
+    let mut t2 = Tiling::new(stream);
+    for (c, e) in &evs2 {
+        account(&mut t2, *c, e).map_err(|m| fail("miscounted-bytes-reader", &who2, stream, m, &evs2))?;
+    }
+    if api == 1 && t2.boundary != stream.len() {
+        return Err(fail("miscounted-bytes-reader", &who2, stream, format!("after the end of input only {} of {} bytes are accounted for", t2.boundary, stream.len()), &evs2));
+    }
+    obs.class(format!("reader-front-end:{}", ["", "io-nb", "eh-nb", "", "eh-blocking"][api as usize]));
     let n_other = faults.iter().filter(|f| matches!(f.1, Step::Other(_))).count();
     if n_other > 0 {
         obs.class("reader:with-other-fault");
